@@ -903,6 +903,11 @@ def r14m(ctx, rep, rule="R14m"):
                     for y in x[2:]:
                         walk(y, [str(q) for q in x[1] if isinstance(q, P.Sym)])
                     return
+                if x[0] == "define" and len(x) >= 3 and isinstance(x[1], list) and x[1]:
+                    # an internal (define (helper . params) body ..) is a lambda too
+                    for y in x[2:]:
+                        walk(y, [str(q) for q in x[1][1:] if isinstance(q, P.Sym)])
+                    return
                 if x[0] == "if" and len(x) >= 3 and params and applies(x):
                     found.append((x[1], params))
                 for y in x:
